@@ -2,7 +2,7 @@ ID = 'C17'
 GROUPS = ['common']
 CXX_SOURCES = []
 WRAP = ['pthread_mutex_lock', 'pthread_mutex_unlock', 'pthread_mutex_init', 'pthread_mutex_destroy',
-        'pthread_cond_init', 'pthread_cond_destroy', 'pthread_cond_wait', 'pthread_cond_signal',
+        'pthread_cond_init', 'pthread_cond_destroy', 'pthread_cond_wait', 'pthread_cond_timedwait', 'pthread_cond_signal',
         'pthread_cond_broadcast', 'pthread_create', 'pthread_join']
 SPEC_KEYS = ['tr', 'end', 'ran', 'outs']
 PROC_TIMEOUT = 1500
@@ -10,8 +10,8 @@ PROC_TIMEOUT = 1500
 RULE = ('schedules of the cooperative scheduler (scheduling points = wrapped pthread calls): for each scenario '
         '(ExecutorThread with 0-3 producers x 0-3 callbacks; FutureImpl raw-pointer pattern; FutureImpl with 0-2 '
         'extra getter copies; ExecutorThread with callbacks that call Execute again; SelectServer::Execute from 1-3 threads with callbacks that call Execute again, 0-3 RunOnce '
-        'iterations, rest drained by the destructor) the non-preemptive run, every single preemption (position x thread), pairs of '
-        'preemptions (all in thorough, sampled in quick), injected spurious wake-ups at every position (alone and '
+        'iterations, rest drained by the destructor; PeriodicThread constructor + Stop with schedulable time-outs of the timed wait) the non-preemptive run, every single preemption (position x thread), pairs of '
+        'preemptions (all in thorough, sampled in quick except for the two small Future scenarios and PeriodicThread, where all pairs run in quick), injected spurious wake-ups at every position (alone and '
         'combined with a preemption), and random schedules; non-trivial = the run has >= 1 wait/wake or >= 1 callback '
         'run and ends normally; distinct = distinct model output line (trace of synchronisation operations)')
 ASSUMPTIONS = ['the wrapped pthread entry points are the only synchronisation in the modelled classes',
@@ -31,7 +31,7 @@ def sj(l):
 
 
 SCENARIOS_Q = [('exec -', 30, 2), ('exec 1', 45, 3), ('exec 2', 55, 3), ('exec 1,1', 70, 4), ('exec 2,1', 80, 4),
-               ('exec 0,3', 80, 4), ('futraw', 16, 2), ('futcopy 0', 26, 2), ('futcopy 1', 40, 3), ('futcopy 2', 50, 4),
+               ('exec 0,3', 80, 4), ('futraw', 16, 2), ('futcopy 0', 26, 2), ('periodic', 30, 2), ('futcopy 1', 40, 3), ('futcopy 2', 50, 4),
                ('execre 1 1', 60, 3), ('execre 2 1', 75, 3), ('execre 1,1 1,1', 90, 4),
                ('ss 1 1 0', 25, 2), ('ss 2 1 1', 40, 2), ('ss 3 2 0', 40, 2), ('ss 1,1 0,0 1', 40, 3), ('ss 2,1 1,1 2', 60, 3)]
 SCENARIOS_T = SCENARIOS_Q + [('execre 2,1 2,0', 100, 4), ('ss 2,2 2,1 3', 90, 3), ('ss 1,1,1 1,0,1 2', 80, 4), ('exec 3', 65, 3), ('exec 1,1,1', 95, 5), ('exec 2,2', 90, 4), ('exec 3,0,2', 110, 5)]
@@ -41,6 +41,8 @@ def gen_cases(rng, tier):
     quick = tier == 'quick'
     scen = SCENARIOS_Q if quick else SCENARIOS_T
     for name, L, nt in scen:
+        L = L + L // 2          # scheduling points after every unlock make the runs longer
+        small = name in ('futraw', 'futcopy 0', 'periodic')
         yield '%s -' % name
         # one preemption: every position x every choice
         for i in range(L):
@@ -54,7 +56,7 @@ def gen_cases(rng, tier):
                                       [500] * rng.randrange(4) + [1000]))
         # two preemptions
         pairs = [(i, j, k1, k2) for i in range(L) for j in range(i + 1, L) for k1 in range(nt) for k2 in range(nt)]
-        if quick:
+        if quick and not small:
             pairs = rng.sample(pairs, min(len(pairs), 120))
         elif len(pairs) > 6000:
             pairs = rng.sample(pairs, 6000)
